@@ -50,6 +50,18 @@ def run(tier="quick", seed=0, contracts=None):
                     bad("value/decimal", "Decimal conversion differs", unit_from=a, unit_to=b, x=repr(x), got=repr(r1))
         if len(samples) < 3:
             samples.append(dict(unit_from=a, unit_to=b, kinds=["scalar", "array", "list", "decimal"]))
+    # exponents stored as unreduced fractions (results of roots, 'm4:2') convert like their reduced form
+    for label, make, target, want in [("sqrt(4 m2)->cm", lambda: np.sqrt(Quantity(4.0, "m2")), "cm", 200.0), ("sqrt([4,9] km2)->m", lambda: np.sqrt(Quantity([4.0, 9.0], "km2")), "m", [2000.0, 3000.0]),
+                                      ("1 m4:2->cm2", lambda: Quantity(1.0, "m4:2"), "cm2", 1.0e4), ("3 km->m2:2", lambda: Quantity(3.0, "km"), "m2:2", 3000.0),
+                                      ("(2 m)**2**(1:2)->mm", lambda: (Quantity(2.0, "m") ** 2) ** (1, 2), "mm", 2000.0), ("1 statC->dyn1:2*cm", lambda: Quantity(1.0, "statC"), "dyn1:2*cm", 1.0)]:
+        evals += 1
+        distinct.add(label)
+        try:
+            got = make().to(target).value()
+            if not np.allclose(got, want, rtol=1e-9):
+                bad("value/unreduced-exponent", "differs from x*f(u)/f(v)", case=label, got=repr(got), want=repr(want))
+        except Exception as e:
+            bad("value/unreduced-exponent", f"same-dimension conversion refused: {type(e).__name__}: {e}", case=label)
     # refused conversions leave the quantity as it was
     for a, b in [("m", "s"), ("J", "W"), ("kg", "m2"), ("N", "Pa"), ("mol", "rad"), ("m", "rad")]:
         for kind in ("scalar", "array"):
